@@ -1,6 +1,11 @@
 // Package base32 implements utilities for encoding and decoding text using I2P's alphabet
 package base32
 
+import (
+	b32 "encoding/base32"
+	"strings"
+)
+
 // EncodeToString encodes binary data to a base32 string using I2P's encoding alphabet.
 // It converts arbitrary byte data into a human-readable base32 string representation
 // using the I2P-specific lowercase alphabet defined in RFC 3548.
@@ -32,7 +37,21 @@ func EncodeToStringNoPadding(data []byte) string {
 // This accepts the standard I2P .b32.i2p address format (52 unpadded characters
 // for a 32-byte hash).
 func DecodeStringNoPadding(data string) ([]byte, error) {
+	if err := rejectPseudoPadding(data); err != nil {
+		return nil, err
+	}
 	return I2PEncodingNoPadding.DecodeString(data)
+}
+
+// rejectPseudoPadding rejects the byte 0xFF. encoding/base32 represents "no padding" as
+// the rune -1 and compares input bytes with byte(-1), so an unpadded decoder silently
+// treats 0xFF bytes as padding characters (e.g. "g2\xff\xff\xff\xff\xff\xff" decodes to
+// one byte). 0xFF is not in the I2P alphabet and must be rejected like any other byte.
+func rejectPseudoPadding(data string) error {
+	if i := strings.IndexByte(data, 0xFF); i >= 0 {
+		return b32.CorruptInputError(i)
+	}
+	return nil
 }
 
 // EncodeToStringSafe encodes binary data to a base32 string with input validation.
@@ -75,6 +94,9 @@ func DecodeStringSafeNoPadding(data string) ([]byte, error) {
 	}
 	if len(data) > MAX_DECODE_SIZE {
 		return nil, ErrInputTooLarge
+	}
+	if err := rejectPseudoPadding(data); err != nil {
+		return nil, err
 	}
 	return I2PEncodingNoPadding.DecodeString(data)
 }
